@@ -2,7 +2,8 @@ package accumulation
 
 // C10 at source level: explicit annotations are binding. The programs of the C01 grammar (always with a call,
 // so that the callee exists) carry ONE doc annotation: nilable / nonnil on the callee's parameter (by name; `param N` is the
-// spelling for anonymous parameters only), on its result (`result 0`), or on the package-level pointer. The annotation changes
+// spelling for anonymous parameters only), on its result (`result 0`), or on the package-level pointer (declared plainly, inside a
+// parenthesised group with a header comment, or without an explicit type). The annotation changes
 // the oracle, not the program text:
 //   nilable site  - the site is a nil source of its own: the parameter inside the callee, the result at every call, the
 //                   package-level pointer when Entry starts hold an arbitrary value (fresh symbolic bool), so every unchecked dereference it reaches must be reported (P01.A1), while a program
@@ -17,7 +18,7 @@ func Harness_P10() {
 	n := ndParam("STMTS", 2)
 	compound := ndParam("COMPOUND", 4)
 	g := &p01Gen{x: true, y: true, g: true, live: true, calleeKind: -1, simple: ndParam("SIMPLE", 9)}
-	switch ndChoice("annotation", 5) {
+	switch ndChoice("annotation", 6) {
 	case 0:
 		g.annA = 1
 	case 1:
@@ -26,17 +27,54 @@ func Harness_P10() {
 		g.annR = 1
 	case 3:
 		g.annR = 2
-	default:
+	case 4:
 		g.annG = 1
+	default:
+		g.annG = 2
 	}
 	g.emit("package p")
 	g.emit("")
 	g.emit("var flag0, flag1, flag2, flag3, calleeflag bool")
-	if g.annG == 1 {
-		g.emit("// nilable(g)")
-		g.g = ndBool("g_annotated_nilable") // its value when Entry starts is arbitrary
+	if g.annG != 0 {
+		// the declaration forms of the annotated package-level pointer: plain, inside a parenthesised group that has
+		// a header comment of its own, or without an explicit type (initialised from a call)
+		keyword := "nilable"
+		if g.annG == 2 {
+			keyword = "nonnil"
+		}
+		switch ndChoice("global_declaration", 3) {
+		case 0:
+			g.emit("// " + keyword + "(g)")
+			if g.annG == 2 {
+				g.gDeclLine = g.emit("var g *int = new(int)")
+			} else {
+				g.gDeclLine = g.emit("var g *int")
+			}
+		case 1:
+			g.emit("// package state")
+			g.emit("var (")
+			g.emit("\t// " + keyword + "(g)")
+			if g.annG == 2 {
+				g.gDeclLine = g.emit("\tg *int = new(int)")
+			} else {
+				g.gDeclLine = g.emit("\tg *int")
+			}
+			g.emit("\tother int")
+			g.emit(")")
+		default:
+			g.emit("func load() *int { return new(int) }")
+			g.emit("")
+			g.emit("// " + keyword + "(g)")
+			g.gDeclLine = g.emit("var g = load()")
+		}
+		if g.annG == 1 {
+			g.g = ndBool("g_annotated_nilable") // its value when Entry starts is arbitrary
+		} else {
+			g.g = false // initialised non-nil; nil may only flow in through `g = x`
+		}
+	} else {
+		g.gDeclLine = g.emit("var g *int")
 	}
-	g.gDeclLine = g.emit("var g *int")
 	g.emit("")
 	g.emit("func Entry() {")
 	g.emit("\tvar x, y *int")
